@@ -177,6 +177,12 @@ func (s *jsonStyle) floatText(f float64) string {
 
 // jsconv spells the member of an api.js_conv field under EnableValueMapping.
 func (s *jsonStyle) jsconv(sb *strings.Builder, v *TVal) {
+	if s.Override != nil {
+		if lit, ok := s.Override[v]; ok {
+			sb.WriteString(lit)
+			return
+		}
+	}
 	s.UsedJSConv++
 	if v.T.Kind == tI16 {
 		s.UsedJSConvI16++
